@@ -11,7 +11,7 @@ CONFIG = {
         "the bytes of a record outside UserID/PasswdHash/Email are one opaque value; the harness compares them raw (byte diff) before/after every operation",
     ],
     "modelled": ["bbs.Register/Login/CheckPasswd/ChangePasswd/ChangeEmail/CheckExistsUser", "bbs.UUserID.ToRaw/ToUUserID", "ptt.Register/NewRegister/SetupNewUser/isBadUserID/isReservedUserID",
-                 "ptt.Login/LoginQuery/userLogin/getNewUtmpEnt (occupancy)", "ptt.ChangePasswd/CheckPasswd/ChangeEmail/GetUser/GetUID", "ptt.InitCurrentUser, pwcuLoginSave (as: rewrites the rest of the own record)",
+                 "ptt.Login/LoginQuery (guest test on the stored id: exact C-string equality)/userLogin/getNewUtmpEnt (occupancy)", "ptt.ChangePasswd/CheckPasswd/ChangeEmail/GetUser/GetUID", "ptt.InitCurrentUser, pwcuLoginSave (as: rewrites the rest of the own record)",
                  "cmbbs.GenPasswd (zero-hash rule)/PasswdLoadUser/PasswdQuery/PasswdQueryPasswd/PasswdUpdate/PasswdUpdatePasswd/PasswdUpdateEmail",
                  "cache.SearchUserRaw/DoSearchUserRaw/SetUserID (abstractly)", "ptttype.UserID_t.IsValid, UID.IsValid", "types.Cstrcmp/Cstrcasecmp/Cstrlen/Isalpha/Isnumber/Isalnum/CcharTolower"],
     "assumptions": [
@@ -21,6 +21,7 @@ CONFIG = {
         "no account expiry during the histories (.fresh is kept younger than an hour, so tryCleanUser never sweeps); no file-system errors; the home directories home/<letter>/ exist",
         "registration judges the id as submitted; the other entry points read a submitted id as a C string (a lookup by \"qb\\0cd\" addresses \"qb\"): recorded (lookup_reads_c_string), not judged",
         "stored hashes come from GenPasswd (or are all-zero / never-verifying): CheckPasswd on a stored hash whose salt byte is >= 128 panics (C02 fcrypt_panics_iff) and is outside the model",
+        "the in-memory guest/admin permission overlay of InitCurrentUser is not observable through the driven entry points; its guest test is tied by the regenerated text only (guest_test_source)",
         "one caller at a time (concurrent registrations are property C15)",
     ],
 }
